@@ -15,6 +15,9 @@
   which fails exactly for n = 366 in leap years (model witness below, `yearday366_witness`).
 -/
 import DateutilVerif.Proofs.RDApply
+import DateutilVerif.Proofs.RDYearday
+import DateutilVerif.Proofs.TzStrBridge
+import DateutilVerif.Proofs.TzStr
 
 namespace C03
 open RDM RDP
@@ -164,6 +167,133 @@ theorem errors_only_out_of_range (d : RD) (x : Temporal) (hd : InDomain d) (hx :
             exact ⟨h.symm, Or.inr (Or.inr (Or.inr ⟨w, n, hwd, hr⟩))⟩
           · contradiction
 
+
+/-- **yearday_spec_partial.** `x + relativedelta(yearday=y)` is day `y` of `x`'s year (Feb 29 counted), for
+    every `y ∈ 1..365` and every valid operand of any year: same kind, same time of day, same year,
+    ordinal = Jan 1 + (y − 1).
+    FULL STATEMENT (not provable — known finding D-C03-yearday366): the same for `1 ≤ y ≤ daysInYear Y`,
+    i.e. also `y = 366` in leap years; the excluded class is exactly `y = 366 ∧ leap Y`, and
+    `yearday366_defect` below proves the negation for EVERY leap year. -/
+theorem yearday_spec_partial (y : Int) (x : Temporal) (hx : x.Valid) (h1 : 1 ≤ y) (h2 : y ≤ 365) :
+    ∃ d res, mk { yearday := some y } = .ok d ∧ applyTo d x = .ok res ∧
+      res.kind = x.kind ∧ res.t.Valid ∧ res.t.y = x.t.y ∧
+      res.t.ordinal = Cal.toOrdinal x.t.y 1 1 + (y - 1) ∧
+      res.t.hh = x.t.hh ∧ res.t.mm = x.t.mm ∧ res.t.ss = x.t.ss ∧ res.t.us = x.t.us := by
+  obtain ⟨m, dd, hl, m1, m12, d1, d2, hsum, hiff⟩ := ydayLookup_spec y h1 h2
+  have hmk := mk_yearday y m dd (by omega) hl
+  obtain ⟨res, ha, hk, hv, hord, t1, t2, t3, t4⟩ :=
+    applyTo_mdl m dd (if y > 59 then -1 else 0) x hx ⟨m1, m12⟩ d1 (by split <;> simp)
+  have hle := nlDim_le x.t.y m
+  have hmin : min dd (Cal.daysInMonth x.t.y m) = dd := by omega
+  rw [hmin] at hord
+  have hord' : res.t.ordinal = Cal.toOrdinal x.t.y 1 1 + (y - 1) := by
+    rw [hord]
+    have e1 : Cal.dbmTable 1 = 0 := by decide
+    unfold Cal.toOrdinal Cal.daysBeforeMonth
+    rw [e1]
+    generalize Cal.dbmTable m = T at *
+    generalize Cal.daysBeforeYear x.t.y = B at *
+    cases hl : Cal.isLeap x.t.y <;> simp <;> (repeat' split) <;> omega
+  refine ⟨_, res, hmk, ha, hk, hv, ?_, hord', t1, t2, t3, t4⟩
+  exact year_of_ordinal_in_year res.t x.t.y hv (by rw [hord']; omega) (by
+    rw [hord']
+    have hs := Cal.daysBeforeYear_succ x.t.y
+    have e1 := Cal.daysBeforeMonth_1 x.t.y
+    have e2 := Cal.daysBeforeMonth_1 (x.t.y + 1)
+    unfold Cal.toOrdinal
+    rw [e1, e2, hs]
+    unfold Cal.daysInYear; split <;> omega)
+
+/-- **nlyearday_spec.** `x + relativedelta(nlyearday=n)`, `n ∈ 1..365`: the month and day that are day `n`
+    of a NON-leap year (Feb 29 is jumped), in `x`'s year — for leap and non-leap years alike.
+    Full strength (no exclusion). -/
+theorem nlyearday_spec (n : Int) (x : Temporal) (hx : x.Valid) (h1 : 1 ≤ n) (h2 : n ≤ 365) :
+    ∃ d res m dd, mk { nlyearday := some n } = .ok d ∧ applyTo d x = .ok res ∧
+      res.kind = x.kind ∧ res.t.Valid ∧
+      Cal.dbmTable m + dd = n ∧ 1 ≤ m ∧ m ≤ 12 ∧ 1 ≤ dd ∧ dd ≤ nlDim m ∧
+      res.t.y = x.t.y ∧ res.t.m = m ∧ res.t.d = dd ∧
+      res.t.ordinal = Cal.toOrdinal x.t.y 1 1 + (n - 1) + (if n ≥ 60 ∧ Cal.isLeap x.t.y = true then 1 else 0) ∧
+      res.t.hh = x.t.hh ∧ res.t.mm = x.t.mm ∧ res.t.ss = x.t.ss ∧ res.t.us = x.t.us := by
+  obtain ⟨m, dd, hl, m1, m12, d1, d2, hsum, hiff⟩ := ydayLookup_spec n h1 h2
+  have hmk := mk_nlyearday n m dd (by omega) hl
+  obtain ⟨res, ha, hk, hv, hord, t1, t2, t3, t4⟩ := applyTo_mdl m dd 0 x hx ⟨m1, m12⟩ d1 (Or.inl rfl)
+  have hle := nlDim_le x.t.y m
+  have hmin : min dd (Cal.daysInMonth x.t.y m) = dd := by omega
+  rw [hmin] at hord
+  simp only [ne_eq, not_true_eq_false, false_and, ↓reduceIte, Int.add_zero] at hord
+  have hinj := Cal.toOrdinal_inj res.t.y res.t.m res.t.d x.t.y m dd hv.1.2.2 ⟨m1, m12, d1, by omega⟩ hord
+  refine ⟨_, res, m, dd, hmk, ha, hk, hv, hsum, m1, m12, d1, d2, hinj.1, hinj.2.1, hinj.2.2, ?_, t1, t2, t3, t4⟩
+  rw [hord]
+  have e1 : Cal.dbmTable 1 = 0 := by decide
+  unfold Cal.toOrdinal Cal.daysBeforeMonth
+  rw [e1]
+  generalize Cal.dbmTable m = T at *
+  generalize Cal.daysBeforeYear x.t.y = B at *
+  cases hl : Cal.isLeap x.t.y <;> simp <;> (repeat' split) <;> omega
+
+/-- **yearday366_defect (the negation of the full yearday statement on the excluded class).** In EVERY leap
+    year, `x + relativedelta(yearday=366)` is day 365 (Dec 30), not day 366: the day is clipped to 31
+    before `leapdays = −1` is applied. -/
+theorem yearday366_defect (x : Temporal) (hx : x.Valid) (hl : Cal.isLeap x.t.y = true) :
+    ∃ d res, mk { yearday := some 366 } = .ok d ∧ applyTo d x = .ok res ∧
+      res.t.ordinal = Cal.toOrdinal x.t.y 1 1 + 364 ∧ res.t.ordinal ≠ Cal.toOrdinal x.t.y 1 1 + (366 - 1) := by
+  have hmk : mk { yearday := some 366 } = .ok (mdl 12 32 (-1)) :=
+    mk_yearday 366 12 32 (by decide) (by decide)
+  obtain ⟨res, ha, _, _, hord, _⟩ := applyTo_mdl 12 32 (-1) x hx (by decide) (by decide) (Or.inr rfl)
+  have hd : Cal.daysInMonth x.t.y 12 = 31 := by unfold Cal.daysInMonth; simp
+  have hord' : res.t.ordinal = Cal.toOrdinal x.t.y 1 1 + 364 := by
+    rw [hord, hd]
+    have e1 : Cal.dbmTable 1 = 0 := by decide
+    have e12 : Cal.dbmTable 12 = 334 := by decide
+    unfold Cal.toOrdinal Cal.daysBeforeMonth
+    rw [e1, e12, hl]
+    simp
+    omega
+  exact ⟨_, res, hmk, ha, hord', by omega⟩
+
+/-! ## Bridge to C08: `tzrange.transitions` runs on this model -/
+
+/-- **C08bridge_applyDelta.** C08's `TzStr.applyDelta year D` (its own copy of the fragment of `__add__` used by
+    `tzrange.transitions`) equals the C03 model applied to `datetime(year, 1, 1)` and the relativedelta
+    `tzstr._delta` builds (`relativedelta(month=, day=, weekday=wd(n), leapdays=, seconds=)`, constructor
+    included): the same instant in seconds since ordinal 0, or the same exception — for every year
+    1..9999 and every Delta (any month, weekday, n, leapdays, seconds; `day` only has to fit a C int). -/
+theorem C08bridge_applyDelta (year : Int) (D : TzStr.Delta) (hy : 1 ≤ year ∧ year ≤ 9999)
+    (hday : ∀ v, D.day = some v → -2147483648 ≤ v) :
+    TzStr.applyDelta year D = (applyTo (rdOfDelta D) (jan1 year)).map secondsOf :=
+  applyDelta_bridge year D hy hday
+
+/-- **C08bridge_J.** Hence C08's `Jn` rule date is a fact about the C03 model: `datetime(y,1,1) +
+    relativedelta(nlyearday=n, seconds=s)` is the POSIX `Jn` day of year `y` plus `s` seconds. -/
+theorem C08bridge_J (y n secs : Int) (hy1 : 2 ≤ y) (hy2 : y ≤ 9998) (hn1 : 1 ≤ n) (hn2 : n ≤ 365)
+    (hs1 : -86400 * 300 ≤ secs) (hs2 : secs < 86400 * 300) :
+    ∃ m dd, TzStr.ydayToMonthDay n = .ok (m, dd) ∧
+      (applyTo (rdOfDelta { month := some m, day := some dd, seconds := secs }) (jan1 y)).map secondsOf
+        = .ok (Posix.ruleOrdinal y (Posix.Rule.J n) * 86400 + secs) := by
+  obtain ⟨m, dd, he, ha⟩ := TzStr.apply_J y n secs hy1 hy2 hn1 hn2 hs1 hs2
+  obtain ⟨m', dd', he', _, _, d1, _⟩ := TzStr.yday_spec n hn1 hn2
+  have e : (m, dd) = (m', dd') := by rw [he] at he'; injection he'
+  have edd : dd = dd' := by injection e
+  refine ⟨m, dd, he, ?_⟩
+  rw [← C08bridge_applyDelta y _ ⟨by omega, by omega⟩ (by intro v hv; simp only [Option.some.injEq] at hv; omega)]
+  exact ha
+
+/-- **C08bridge_N.** The same for the zero-based POSIX `n` rule (`relativedelta(yearday=n+1, seconds=s)`),
+    `n ∈ 0..364` (n = 365 is the excluded class of D-C03-yearday366). -/
+theorem C08bridge_N (y n secs : Int) (hy1 : 2 ≤ y) (hy2 : y ≤ 9998) (hn1 : 0 ≤ n) (hn2 : n ≤ 364)
+    (hs1 : -86400 * 300 ≤ secs) (hs2 : secs < 86400 * 300) :
+    ∃ m dd, TzStr.ydayToMonthDay (n + 1) = .ok (m, dd) ∧
+      (applyTo (rdOfDelta { month := some m, day := some dd, leapdays := (if n + 1 > 59 then -1 else 0),
+                            seconds := secs }) (jan1 y)).map secondsOf
+        = .ok (Posix.ruleOrdinal y (Posix.Rule.N n) * 86400 + secs) := by
+  obtain ⟨m, dd, he, ha⟩ := TzStr.apply_N y n secs hy1 hy2 hn1 hn2 hs1 hs2
+  obtain ⟨m', dd', he', _, _, d1, _⟩ := TzStr.yday_spec (n + 1) (by omega) (by omega)
+  have e : (m, dd) = (m', dd') := by rw [he] at he'; injection he'
+  have edd : dd = dd' := by injection e
+  refine ⟨m, dd, he, ?_⟩
+  rw [← C08bridge_applyDelta y _ ⟨by omega, by omega⟩ (by intro v hv; simp only [Option.some.injEq] at hv; omega)]
+  exact ha
+
 -- non-vacuity / sanity
 example : applyTo { months := 1 } ⟨.date, { y := 2000, m := 1, d := 31 }⟩
     = .ok ⟨.date, { y := 2000, m := 2, d := 29 }⟩ := by decide +kernel
@@ -172,6 +302,13 @@ example : applyTo { months := -11, years := -1, hasTime := 0 } ⟨.naive, { y :=
 example : RDSpec.apply { hours := 25, day := some 1, weekday := some (0, some 1), hasTime := 1 }
     ⟨.naive, { y := 2018, m := 4, d := 9, hh := 13, mm := 37 }⟩
     = .ok ⟨.naive, { y := 2018, m := 4, d := 2, hh := 14, mm := 37 }⟩ := by decide +kernel
+example : (mk { yearday := some 60 }).bind (fun d => applyTo d ⟨.date, { y := 2001, m := 7, d := 4 }⟩)
+    = .ok ⟨.date, { y := 2001, m := 3, d := 1 }⟩ := by decide +kernel
+example : (mk { nlyearday := some 60 }).bind (fun d => applyTo d ⟨.naive, { y := 2000, m := 7, d := 4, hh := 9 }⟩)
+    = .ok ⟨.naive, { y := 2000, m := 3, d := 1, hh := 9 }⟩ := by decide +kernel
+example : TzStr.applyDelta 2024 { month := some 3, day := some 1, weekday := some (6, 2), seconds := 7200 }
+    = (applyTo (rdOfDelta { month := some 3, day := some 1, weekday := some (6, 2), seconds := 7200 }) (jan1 2024)).map secondsOf :=
+  C08bridge_applyDelta 2024 _ (by decide) (by intro v hv; simp only [Option.some.injEq] at hv; omega)
 /-- the model reproduces the known finding: yearday=366 in leap year 2000 gives Dec 30 -/
 theorem yearday366_witness :
     (mk { yearday := some 366 }).bind (fun d => applyTo d ⟨.date, { y := 2000, m := 1, d := 1 }⟩)
